@@ -218,7 +218,7 @@ pub fn units() -> Vec<Unit> {
                     for cr in 5..=8u8 {
                         for ldro in 0..=1u8 {
                             for _ in 0..priors {
-                                eval126(st, Case126 { chip, rx_boost: false, seed: rng.next_u64(), op: Op126::Mod { sf, bw_hz: bw.hz(), cr, ldro, hz: 868_100_000 } }, "sx126x/mod");
+                                eval126(st, Case126 { chip, rx_boost: rng.below(2) == 1, seed: rng.next_u64(), op: Op126::Mod { sf, bw_hz: bw.hz(), cr, ldro, hz: 868_100_000 } }, "sx126x/mod");
                             }
                         }
                     }
@@ -297,7 +297,7 @@ pub fn units() -> Vec<Unit> {
                 for iq in [false, true] {
                     for preamble in &pre {
                         for len in 0..=255u8 {
-                            eval126(st, Case126 { chip, rx_boost: false, seed: rng.next_u64(), op: Op126::Pkt { preamble: *preamble, implicit, len, crc, iq } }, "sx126x/pkt");
+                            eval126(st, Case126 { chip, rx_boost: rng.below(2) == 1, seed: rng.next_u64(), op: Op126::Pkt { preamble: *preamble, implicit, len, crc, iq } }, "sx126x/pkt");
                         }
                     }
                 }
@@ -373,7 +373,7 @@ pub fn units() -> Vec<Unit> {
                                 for armed in [false, true] {
                                     for _ in 0..priors {
                                         let mp = Mp { sf: *sf, bw_hz: *bw, cr, ldro, hz: *hz };
-                                        eval127(st, env, Case127 { chip, tx_boost: false, rx_boost: false, seed: rng.next_u64(), sc: Sc127::Mod { mp, armed } }, "sx127x/mod");
+                                        eval127(st, env, Case127 { chip, tx_boost: rng.below(2) == 1, rx_boost: rng.below(2) == 1, seed: rng.next_u64(), sc: Sc127::Mod { mp, armed } }, "sx127x/mod");
                                     }
                                 }
                             }
@@ -421,7 +421,7 @@ pub fn units() -> Vec<Unit> {
                     for preamble in &pre {
                         for len in 0..=255u8 {
                             let pp = Pp { preamble: *preamble, implicit, len, crc, iq };
-                            eval127(st, env, Case127 { chip, tx_boost: false, rx_boost: false, seed: rng.next_u64(), sc: Sc127::Pkt { pp: pp.clone() } }, "sx127x/pkt");
+                            eval127(st, env, Case127 { chip, tx_boost: rng.below(2) == 1, rx_boost: rng.below(2) == 1, seed: rng.next_u64(), sc: Sc127::Pkt { pp: pp.clone() } }, "sx127x/pkt");
                             if *preamble == 8 || env.thorough {
                                 eval127(st, env, Case127 { chip, tx_boost: false, rx_boost: false, seed: rng.next_u64(), sc: Sc127::Payload { pp } }, "sx127x/payload");
                             }
@@ -463,7 +463,7 @@ pub fn units() -> Vec<Unit> {
                                     for len in lens {
                                         let pp = Pp { preamble: *rng.pick(&[6u16, 8, 12, 300]), implicit, len, crc, iq };
                                         let legacy = rng.below(256) as u8;
-                                        eval127(st, env, Case127 { chip, tx_boost: false, rx_boost: false, seed: rng.next_u64(), sc: Sc127::TxFlow { mp: mp.clone(), pp: pp.clone(), legacy } }, "sx127x/tx-flow");
+                                        eval127(st, env, Case127 { chip, tx_boost: rng.below(2) == 1, rx_boost: rng.below(2) == 1, seed: rng.next_u64(), sc: Sc127::TxFlow { mp: mp.clone(), pp: pp.clone(), legacy } }, "sx127x/tx-flow");
                                         for rx_boost in [false, true] {
                                             for symbols in [None, Some(0u16), Some(4), Some(5 + rng.below(1019) as u16)] {
                                                 eval127(st, env, Case127 { chip, tx_boost: false, rx_boost, seed: rng.next_u64(), sc: Sc127::RxFlow { mp: mp.clone(), pp: pp.clone(), legacy, symbols } }, "sx127x/rx-flow");
